@@ -155,4 +155,89 @@ theorem finish_delivers (m : MState) (f : Frame) (rest : List Frame) (r : Outcom
       (finishFrame m f rest r).starts = m.starts := by
   simp [finishFrame]
 
+/-! ### the whole requestor chain -/
+
+/-- the `k`-th cell on the requestor chain of `t` (the expressions whose frames were replaced by tail returns) -/
+def hop (s : Store) (t : TId) : Nat → Option TId
+  | 0 => some t
+  | k + 1 => (hop s t k).bind (fun u => (s.getCell u).requestor)
+
+theorem requestor_setValue (s : Store) (t u : TId) (v : Outcome) :
+    ((s.setValue t v).getCell u).requestor = (s.getCell u).requestor := by
+  simp only [Store.setValue, Store.getCell, Heap.getD_eq, Heap.get?_modify]
+  by_cases h : t = u
+  · subst h; cases hh : s.cells.get? t <;> simp
+  · simp [h]
+
+theorem isSome_setValue (s : Store) (t u : TId) (v : Outcome) :
+    ((s.setValue t v).cells.get? u).isSome = (s.cells.get? u).isSome := by
+  simp only [Store.setValue, Heap.get?_modify]
+  by_cases h : t = u
+  · subst h; cases hh : s.cells.get? t <;> simp
+  · simp [h]
+
+theorem hop_setValue (s : Store) (t a : TId) (v : Outcome) : ∀ k, hop (s.setValue a v) t k = hop s t k := by
+  intro k
+  induction k with
+  | zero => rfl
+  | succ k ih =>
+    simp only [hop, ih]
+    cases hop s t k with
+    | none => rfl
+    | some u => simp [requestor_setValue]
+
+/-- walking the chain from the requestor is walking it from `t`, one hop later -/
+theorem hop_succ' (s : Store) (t r : TId) (hr : (s.getCell t).requestor = some r) :
+    ∀ k, hop s t (k + 1) = hop s r k := by
+  intro k
+  induction k with
+  | zero => simp [hop, hr]
+  | succ k ih =>
+    have : hop s t (k + 2) = (hop s t (k + 1)).bind (fun u => (s.getCell u).requestor) := rfl
+    rw [this, ih]; rfl
+
+theorem hop_none (s : Store) (t : TId) (hr : (s.getCell t).requestor = none) : ∀ k, hop s t (k + 1) = none := by
+  intro k
+  induction k with
+  | zero => simp [hop, hr]
+  | succ k ih =>
+    have e : hop s t (k + 2) = (hop s t (k + 1)).bind (fun u => (s.getCell u).requestor) := rfl
+    rw [e, ih]; rfl
+
+/-- **every expression on the tail-call chain receives the final outcome**: `resolve` with fuel `n` writes `v` into the
+cell itself and into each of the next `n − 1` cells of its requestor chain (all that exist) -/
+theorem resolve_chain (v : Outcome) : ∀ (fuel : Nat) (s : Store) (t : TId) (k : Nat) (u : TId),
+    k < fuel → hop s t k = some u → (s.cells.get? u).isSome →
+    ((s.resolve fuel t v).getCell u).value = some v := by
+  intro fuel
+  induction fuel with
+  | zero => intro s t k u hk; omega
+  | succ fuel ih =>
+    intro s t k u hk hhop hsome
+    cases k with
+    | zero =>
+      simp only [hop, Option.some.injEq] at hhop
+      subst hhop
+      exact resolve_sets_own s fuel t v hsome
+    | succ k =>
+      -- the chain continues: there is a requestor r, and u is k hops from r
+      cases hr : (s.getCell t).requestor with
+      | none =>
+        rw [hop_none s t hr k] at hhop; cases hhop
+      | some r =>
+        simp only [Store.resolve, hr]
+        have h1 : hop (s.setValue t v) r k = some u := by
+          rw [hop_setValue, ← hop_succ' s t r hr k]; exact hhop
+        have h2 : ((s.setValue t v).cells.get? u).isSome := by rw [isSome_setValue]; exact hsome
+        exact ih (s.setValue t v) r k u (by omega) h1 h2
+
+/-- in the evaluator: when a frame delivers its outcome, the cell it evaluated and every cell within `size + 1` hops on
+its requestor chain — all expressions whose frames it replaced by tail returns — hold that outcome afterwards -/
+theorem finish_fills_chain (m : MState) (f : Frame) (rest : List Frame) (r : Outcome) (t : TId) (k : Nat) (u : TId)
+    (hb : f.box = some t) (hk : k ≤ m.store.cells.size) (hhop : hop m.store t k = some u)
+    (hu : (m.store.cells.get? u).isSome) :
+    ((finishFrame m f rest r).store.getCell u).value = some r := by
+  simp only [finishFrame, hb]
+  exact resolve_chain r _ m.store t k u (by omega) hhop hu
+
 end UH.C13
